@@ -25,6 +25,10 @@ var c19Preambles = [][]string{
 	{"/*\n#include <c.h>\n*/", "// trailing"},
 	{"#include <a.h>\n\nint z;"},
 	{"a */ b"},
+	{"#include <a.h>", "#cgo LDFLAGS: -lm"},
+	{"typedef int t;", "// #cgo CFLAGS: -O2", "#cgo pkg-config: x\nt f(void);"},
+	{"#include <a.h>", "", "int f(void);"},
+	{"#include <a.h>", "#include <a.h>", "#endif", "#endif"},
 	{"int x; /* c */\n\nint y;"},
 	{"int x;\n/* c */", "#include <a.h>"},
 	{"#include <a.h>\nstatic const char table[] = {" + strings.Repeat("1,", 40000) + "};\nint after(void);"},
@@ -72,7 +76,7 @@ var c19Check = &impCheck{
 func init() {
 	register(&Check{ID: "C19", Level: "model_checking", Run: func(r *ev.Recorder) {
 		r.Rule = "(1) explicit-state BFS over one real File: Qual(\"C\", s), Anon(\"C\"), ImportName(\"C\", x), ImportAlias(\"C\", C|c|.), the same for a package b/C whose real name is C and for fmt, one-line and multi-line CgoPreamble blocks, PackagePrefix - in every order up to the depth bound. " +
-			"(2) canonical histories: every reference sequence over {C, b/C, a/c, fmt, os, x/y, 9fans.net/go, B/b} (paths that sort before and after \"C\") x 14 preamble lists (0-2 blocks; one with an 80 KB line; blank lines inside a block; */ inside a one-line and inside a multi-line block - for the latter an error is accepted, since the automatic /* */ form cannot hold it; one-line, one-line with trailing newline, multi-line, raw /* */ and // forms) x hints naming \"C\" (ImportName, ImportAlias C, c, ., _ ; double hints; hints after the references) x Anon x prefix {pkg, C}, within the deviation bound. " +
+			"(2) canonical histories: every reference sequence over {C, b/C, a/c, fmt, os, x/y, 9fans.net/go, B/b} (paths that sort before and after \"C\") x 18 preamble lists (0-4 blocks; #cgo directive blocks after other blocks; an empty block; identical blocks; one with an 80 KB line; blank lines inside a block; */ inside a one-line and inside a multi-line block - for the latter an error is accepted, since the automatic /* */ form cannot hold it; one-line, one-line with trailing newline, multi-line, raw /* */ and // forms) x hints naming \"C\" (ImportName, ImportAlias C, c, ., _ ; double hints; hints after the references) x Anon x prefix {pkg, C}, within the deviation bound. " +
 			"(3) every history of 5 (thorough: 6) operations over {Anon C, a fragment Qual(C) rendered with the File, reference to fmt / C / a path sorting before C, File.Render, preamble} followed by the final render. Oracle on the parsed output: exactly one spec with path \"C\", without a name; every reference built with \"C\" is C.sym; with a preamble the spec is alone in its declaration, its doc comment consists of the preamble blocks' text in order, there is no blank line between doc and import, and all other specs come in an earlier declaration; without a preamble it has no doc; plus C04's exactness and C03's type check (FakeImportC). " +
 			"distinct_nontrivial = distinct outputs importing \"C\" together with a preamble or another import"
 		r.Assume = []string{"comment text is compared line-wise, trimmed (gofmt may re-indent block comments)", "histories beyond the depth / deviation bounds are outside the bound"}
